@@ -1,207 +1,145 @@
 import Gimli.Lemmas.Leb
-/-! Signed LEB128: `Leb128::signed` followed by `leb128::read::signed` is the identity on every
-`i64` (needed by C13 for `DW_LNS_advance_line`; C09 covers the signed codec by enumeration). -/
+/-! Signed LEB128: `leb128::read::signed ∘ Leb128::signed = id` on every `i64` (the unsigned
+counterpart is `Leb.unsigned_roundtrip`). Proved by induction over the groups with the shift made
+concrete (ten cases), so that all bit operations become additions that `omega` can check. -/
 namespace Gimli.Leb
 open Gimli
 
-def signedPost : Out (Nat × Nat × UInt8 × Bytes) → Out (Int × Bytes)
-  | .ok (result, shift, byte, rest) =>
-    let result :=
-      if shift < 64 ∧ (byte.toNat / 64) % 2 = 1 then
-        result ||| ((2 ^ 64 - 1) <<< shift % 2 ^ 64)
-      else result
-    .ok (toI64 result, rest)
-  | .err e => .err e
-  | .panic w => .panic w
-  | .diverge => .diverge
-
-theorem or_high (r s : Nat) (hr : r < 2 ^ s) (hs : s ≤ 64) :
-    r ||| ((2 ^ (64 - s) - 1) <<< s) = r + (2 ^ 64 - 2 ^ s) := by
-  rw [Nat.or_comm, ← Nat.shiftLeft_add_eq_or_of_lt hr, Nat.shiftLeft_eq, Nat.sub_mul, ← Nat.pow_add,
-    Nat.sub_add_cancel hs, Nat.one_mul]
-  omega
-
-theorem ones_shift (t : Nat) (ht : t ≤ 64) : (2 ^ 64 - 1) <<< t % 2 ^ 64 = 2 ^ 64 - 2 ^ t := by
-  rw [Nat.shiftLeft_eq]
-  have h1 : 1 ≤ 2 ^ t := Nat.two_pow_pos t
-  have h2 : 2 ^ t ≤ 2 ^ 64 := Nat.pow_le_pow_right (by decide) ht
-  generalize 2 ^ t = P at *
-  omega
-
-theorem or_high' (r s : Nat) (hr : r < 2 ^ s) (hs : s ≤ 64) :
-    r ||| (2 ^ 64 - 2 ^ s) = r + (2 ^ 64 - 2 ^ s) := by
-  have := or_high r s hr hs
-  have e : (2 ^ (64 - s) - 1) <<< s = 2 ^ 64 - 2 ^ s := by
-    rw [Nat.shiftLeft_eq, Nat.sub_mul, ← Nat.pow_add, Nat.sub_add_cancel hs, Nat.one_mul]
-  rw [e] at this
-  exact this
+/-- the sign-extension and reinterpretation at the end of `leb128::read::signed` -/
+def finish (R sh : Nat) (b : UInt8) : Int :=
+  toI64 (if sh < 64 ∧ (b.toNat / 64) % 2 = 1 then R ||| ((2 ^ 64 - 1) <<< sh % 2 ^ 64) else R)
 
 theorem ofNat_toNat' (n : Nat) (h : n < 256) : (UInt8.ofNat n).toNat = n := by
   simp [Nat.mod_eq_of_lt h]
 
-/-- one terminal byte at a shift below 63 -/
-theorem signedPost_last (s : Nat) (hs : s ≤ 56) (result : Nat) (x : Int) (rest : Bytes)
-    (hr : result < 2 ^ s) (hx : x / 64 = 0 ∨ x / 64 = -1) :
-    signedPost (signedLoop (UInt8.ofNat ((x % 256).toNat % 128) :: rest) result s) =
-      .ok ((result : Int) + 2 ^ s * x, rest) := by
-  have hlow : (x % 256).toNat % 128 = (x % 128).toNat := by omega
-  have hlt : (x % 128).toNat < 128 := by omega
-  rw [hlow, signedLoop]
-  simp only [ofNat_toNat' _ (by omega : (x % 128).toNat < 256)]
-  rw [if_neg (by omega), Nat.mod_eq_of_lt hlt]
-  have hfit : (x % 128).toNat * 2 ^ s < 2 ^ 64 := by
-    have : (x % 128).toNat * 2 ^ s < 128 * 2 ^ s := Nat.mul_lt_mul_of_pos_right hlt (Nat.two_pow_pos s)
-    have h2 : 128 * 2 ^ s ≤ 128 * 2 ^ 56 := Nat.mul_le_mul_left _ (Nat.pow_le_pow_right (by decide) hs)
-    omega
-  rw [or_step _ _ _ hr hfit]
-  simp only [hlt, ↓reduceIte, signedPost]
-  rw [ofNat_toNat' _ (by omega : (x % 128).toNat < 256)]
-  have hp1 : (1 : Nat) ≤ 2 ^ s := Nat.two_pow_pos s
-  have hp2 : 2 ^ s ≤ 2 ^ 56 := Nat.pow_le_pow_right (by decide) hs
-  have hp7 : 2 ^ (s + 7) = 128 * 2 ^ s := by rw [Nat.pow_add]; omega
-  have hcast : ((2 ^ s : Nat) : Int) = (2 : Int) ^ s := by simp
-  by_cases hneg : x < 0
-  · have hbit : (x % 128).toNat / 64 % 2 = 1 := by omega
-    rw [if_pos ⟨by omega, hbit⟩, ones_shift _ (by omega)]
-    have hr' : result + 2 ^ s * (x % 128).toNat < 2 ^ (s + 7) := by
-      rw [hp7]
-      have : 2 ^ s * (x % 128).toNat ≤ 2 ^ s * 127 := Nat.mul_le_mul_left _ (by omega)
+theorem signed_eq_finish (bs : Bytes) (R sh : Nat) (b : UInt8) (rest : Bytes)
+    (h : signedLoop bs 0 0 = .ok (R, sh, b, rest)) : signed bs = .ok (finish R sh b, rest) := by
+  unfold signed finish
+  rw [h]
+
+/-- sign extension for a concrete shift, as an addition -/
+theorem signext (R s m : Nat) (hR : R < 2 ^ s) (hm : ((2 ^ 64 - 1) <<< s) % 2 ^ 64 = (m <<< s) % 2 ^ 64)
+    (hfit : m * 2 ^ s < 2 ^ 64) : R ||| ((2 ^ 64 - 1) <<< s % 2 ^ 64) = R + 2 ^ s * m := by
+  rw [hm]; exact or_step R m s hR hfit
+
+/-- the statement of the induction: after `k` groups (`R < 2^(7k)` accumulated), the remaining
+value `v` is encoded with `fuel` groups available -/
+def StepGoal (fuel k R : Nat) (v : Int) (rest : Bytes) : Prop :=
+  ∃ R' sh' b, signedLoop (encodeSFuel fuel v ++ rest) R (7 * k) = .ok (R', sh', b, rest) ∧
+    finish R' sh' b = R + 2 ^ (7 * k) * v
+
+def StepHyp (fuel k R : Nat) (v : Int) : Prop :=
+  k ≤ 9 ∧ R < 2 ^ (7 * k) ∧ 10 ≤ fuel + k ∧
+  -(2 ^ 63 : Int) ≤ R + 2 ^ (7 * k) * v ∧ (R : Int) + 2 ^ (7 * k) * v < 2 ^ 63
+
+set_option hygiene false in
+macro "sleb_step" _k:num s:num k1:num : tactic => `(tactic| (
+  obtain ⟨_, hR, hf, hlo, hhi⟩ := hyp
+  unfold StepGoal
+  simp only [Nat.reduceMul, Nat.reducePow, Int.reducePow, Int.reduceNeg] at hR hlo hhi ⊢
+  rw [encodeSFuel]
+  have hx : (v % 256).toNat % 128 < 128 := Nat.mod_lt _ (by decide)
+  have hxv : (((v % 256).toNat % 128 : Nat) : Int) = v % 128 := by omega
+  generalize (v % 256).toNat % 128 = x at hx hxv
+  by_cases hlast : v / 64 = 0 ∨ v / 64 = -1
+  · rw [if_pos hlast]
+    simp only [List.cons_append, List.nil_append]
+    rw [signedLoop]
+    have hb : (UInt8.ofNat x).toNat = x := ofNat_toNat' x (by omega)
+    simp only [hb]
+    rw [if_neg (by omega), if_pos hx]
+    refine ⟨_, _, _, rfl, ?_⟩
+    unfold finish
+    simp only [hb, Nat.mod_eq_of_lt hx]
+    have hfit : x * 2 ^ $s < 2 ^ 64 := by omega
+    rw [or_step R x $s (by omega) hfit]
+    by_cases hneg : (x / 64) % 2 = 1
+    · rw [if_pos ⟨by omega, hneg⟩]
+      rw [signext (R + 2 ^ $s * x) ($s + 7) (2 ^ (64 - ($s + 7)) - 1) (by omega) (by decide) (by decide)]
+      unfold toI64
       omega
-    rw [or_high' _ _ hr' (by omega)]
-    have hlo : (((x % 128).toNat : Nat) : Int) = x + 128 := by omega
-    have hmul : (((2 ^ s * (x % 128).toNat : Nat)) : Int) = (2 : Int) ^ s * x + 128 * (2 : Int) ^ s := by
-      rw [Int.natCast_mul, hlo, Int.mul_add, Int.natCast_pow, Int.mul_comm _ 128]; rfl
-    have hb1 : 2 ^ s * 64 ≤ 2 ^ s * (x % 128).toNat := Nat.mul_le_mul_left _ (by omega)
-    have hb2 : 2 ^ s * (x % 128).toNat ≤ 2 ^ s * 127 := Nat.mul_le_mul_left _ (by omega)
-    have hres : toI64 (result + 2 ^ s * (x % 128).toNat + (2 ^ 64 - 2 ^ (s + 7))) = (result : Int) + 2 ^ s * x := by
+    · rw [if_neg (by omega)]
       unfold toI64
-      rw [hp7]
-      generalize 2 ^ s * (x % 128).toNat = L at *
-      generalize (2 : Int) ^ s * x = Z at *
-      rw [← hcast] at hmul
-      generalize 2 ^ s = P at *
-      split <;> omega
-    rw [hres]
-  · have hbit : ¬ ((x % 128).toNat / 64 % 2 = 1) := by omega
-    rw [if_neg (by intro h; exact hbit h.2)]
-    have hlo : (((x % 128).toNat : Nat) : Int) = x := by omega
-    have hmul : (((2 ^ s * (x % 128).toNat : Nat)) : Int) = (2 : Int) ^ s * x := by
-      rw [Int.natCast_mul, hlo, Int.natCast_pow]; rfl
-    have hb2 : 2 ^ s * (x % 128).toNat ≤ 2 ^ s * 63 := Nat.mul_le_mul_left _ (by omega)
-    have hres : toI64 (result + 2 ^ s * (x % 128).toNat) = (result : Int) + 2 ^ s * x := by
-      unfold toI64
-      generalize 2 ^ s * (x % 128).toNat = L at *
-      generalize (2 : Int) ^ s * x = Z at *
-      generalize 2 ^ s = P at *
-      split <;> omega
-    rw [hres]
+      omega
+  · rw [if_neg hlast]
+    simp only [List.cons_append]
+    rw [signedLoop]
+    have hb : (UInt8.ofNat (x + 128)).toNat = x + 128 := ofNat_toNat' _ (by omega)
+    have hmod : (x + 128) % 128 = x := by omega
+    simp only [hb, hmod]
+    rw [if_neg (by omega), if_neg (by omega)]
+    have hfit : x * 2 ^ $s < 2 ^ 64 := by omega
+    rw [or_step R x $s (by omega) hfit]
+    have := ih $k1 (R + 2 ^ $s * x) (v / 64 / 2) ⟨by omega,
+      by simp only [Nat.reduceMul, Nat.reducePow]; omega, by omega,
+      by simp only [Nat.reduceMul, Nat.reducePow, Int.reducePow, Int.reduceNeg]; omega,
+      by simp only [Nat.reduceMul, Nat.reducePow, Int.reducePow]; omega⟩
+    obtain ⟨R', sh', b, h1, h2⟩ := this
+    refine ⟨R', sh', b, h1, ?_⟩
+    rw [h2]
+    simp only [Nat.reduceMul, Nat.reducePow, Int.reducePow]
+    omega))
 
-/-- the tenth byte (shift 63): `0x00` or `0x7f` -/
-theorem signedPost_last63 (result : Nat) (x : Int) (rest : Bytes) (hr : result < 2 ^ 63)
-    (hx : x = 0 ∨ x = -1) :
-    signedPost (signedLoop (UInt8.ofNat ((x % 256).toNat % 128) :: rest) result 63) =
-      .ok ((result : Int) + 2 ^ 63 * x, rest) := by
-  rcases hx with rfl | rfl
-  · have e : (UInt8.ofNat (((0 : Int) % 256).toNat % 128)) = 0 := by decide
-    rw [e, signedLoop]
-    simp [signedPost, toI64]
-    omega
-  · have e : (UInt8.ofNat (((-1 : Int) % 256).toNat % 128)) = 0x7f := by decide
-    rw [e, signedLoop]
-    have e2 : ((0x7f : UInt8).toNat % 128) <<< 63 % 2 ^ 64 = (1 <<< 63) % 2 ^ 64 := by decide
-    have e3 : (0x7f : UInt8).toNat = 127 := by decide
-    simp only [e3, Nat.reduceMod, Nat.reduceLT, ↓reduceIte]
-    rw [if_neg (by decide)]
-    have e4 : 127 <<< 63 % 2 ^ 64 = (1 <<< 63) % 2 ^ 64 := by decide
-    rw [e4, or_step result 1 63 hr (by decide)]
-    simp only [signedPost, Nat.reduceAdd, Nat.reduceLT, false_and, ↓reduceIte, toI64]
-    split <;> simp <;> omega
-
-theorem signedLoop_encodeS : ∀ (fuel k result : Nat) (x : Int) (rest : Bytes),
-    k ≤ 9 → 10 ≤ fuel + k → result < 2 ^ (7 * k) →
-    -(2 ^ (63 - 7 * k) : Int) ≤ x → x < 2 ^ (63 - 7 * k) →
-    signedPost (signedLoop (encodeSFuel fuel x ++ rest) result (7 * k)) =
-      .ok ((result : Int) + 2 ^ (7 * k) * x, rest) := by
-  intro fuel
+theorem signedLoop_encodeS (rest : Bytes) (fuel : Nat) : ∀ (k R : Nat) (v : Int),
+    StepHyp fuel k R v → StepGoal fuel k R v rest := by
   induction fuel with
-  | zero => intro k _ _ _ hk hf; omega
+  | zero => intro k R v hyp; obtain ⟨h1, _, h3, _⟩ := hyp; omega
   | succ fuel ih =>
-    intro k result x rest hk hf hr hlo hhi
-    rw [encodeSFuel]
-    by_cases hterm : x / 64 = 0 ∨ x / 64 = -1
-    · rw [if_pos hterm]
-      simp only [List.cons_append, List.nil_append]
-      by_cases h9 : k = 9
-      · subst h9
-        simp only [Nat.reduceMul, Nat.reduceSub, Int.pow_zero] at hlo hhi hr ⊢
-        exact signedPost_last63 result x rest hr (by omega)
-      · exact signedPost_last (7 * k) (by omega) result x rest hr hterm
-    · rw [if_neg hterm]
-      have hk8 : k ≤ 8 := by
-        apply Classical.byContradiction
-        intro hc
-        have : k = 9 := by omega
-        subst this
-        simp only [Nat.reduceMul, Nat.reduceSub, Int.pow_zero] at hlo hhi
-        apply hterm
+    intro k R v hyp
+    have hk : k = 0 ∨ k = 1 ∨ k = 2 ∨ k = 3 ∨ k = 4 ∨ k = 5 ∨ k = 6 ∨ k = 7 ∨ k = 8 ∨ k = 9 := by
+      have := hyp.1; omega
+    rcases hk with rfl | rfl | rfl | rfl | rfl | rfl | rfl | rfl | rfl | rfl
+    · sleb_step 0 0 1
+    · sleb_step 1 7 2
+    · sleb_step 2 14 3
+    · sleb_step 3 21 4
+    · sleb_step 4 28 5
+    · sleb_step 5 35 6
+    · sleb_step 6 42 7
+    · sleb_step 7 49 8
+    · sleb_step 8 56 9
+    · -- ten groups: only the values 0 and -1 remain, the last byte is 0x00 or 0x7f
+      obtain ⟨_, hR, hf, hlo, hhi⟩ := hyp
+      unfold StepGoal
+      simp only [Nat.reduceMul, Nat.reducePow, Int.reducePow, Int.reduceNeg] at hR hlo hhi ⊢
+      rw [encodeSFuel]
+      have hv : v = 0 ∨ v = -1 := by omega
+      rcases hv with rfl | rfl
+      · have e0 : UInt8.ofNat (((0 : Int) % 256).toNat % 128) = 0 := by decide
+        rw [if_pos (Or.inl (by decide)), e0]
+        simp only [List.cons_append, List.nil_append]
+        rw [signedLoop]
+        simp only [show (0 : UInt8).toNat = 0 from rfl]
+        rw [if_neg (by decide), if_pos (by decide)]
+        refine ⟨_, _, _, rfl, ?_⟩
+        unfold finish
+        rw [if_neg (by decide)]
+        have : (0 % 128) <<< 63 % 2 ^ 64 = 0 := by decide
+        rw [this, Nat.or_zero]
+        unfold toI64
         omega
-      have hlow : (x % 256).toNat % 128 = (x % 128).toNat := by omega
-      have hlt : (x % 128).toNat < 128 := by omega
-      simp only [List.cons_append]
-      rw [signedLoop, hlow]
-      simp only [ofNat_toNat' _ (by omega : (x % 128).toNat + 128 < 256)]
-      rw [if_neg (by omega), if_neg (by omega)]
-      have hm : ((x % 128).toNat + 128) % 128 = (x % 128).toNat := by omega
-      rw [hm]
-      have hp2 : 2 ^ (7 * k) ≤ 2 ^ 56 := Nat.pow_le_pow_right (by decide) (by omega)
-      have hp1 : 1 ≤ 2 ^ (7 * k) := Nat.two_pow_pos _
-      have hfit : (x % 128).toNat * 2 ^ (7 * k) < 2 ^ 64 := by
-        have : (x % 128).toNat * 2 ^ (7 * k) < 128 * 2 ^ (7 * k) :=
-          Nat.mul_lt_mul_of_pos_right hlt (Nat.two_pow_pos _)
+      · have e1 : UInt8.ofNat (((-1 : Int) % 256).toNat % 128) = 127 := by decide
+        rw [if_pos (Or.inr (by decide)), e1]
+        simp only [List.cons_append, List.nil_append]
+        rw [signedLoop]
+        simp only [show (127 : UInt8).toNat = 127 from rfl]
+        rw [if_neg (by decide), if_pos (by decide)]
+        refine ⟨_, _, _, rfl, ?_⟩
+        unfold finish
+        rw [if_neg (by decide)]
+        have : (127 % 128) <<< 63 % 2 ^ 64 = (1 <<< 63) % 2 ^ 64 := by decide
+        rw [this, or_step R 1 63 (by omega) (by decide)]
+        unfold toI64
         omega
-      rw [or_step _ _ _ hr hfit]
-      have h7 : 7 * k + 7 = 7 * (k + 1) := by omega
-      rw [h7]
-      have hpow : 2 ^ (7 * (k + 1)) = 128 * 2 ^ (7 * k) := by
-        rw [← h7, Nat.pow_add]; omega
-      have hb2 : 2 ^ (7 * k) * (x % 128).toNat ≤ 2 ^ (7 * k) * 127 := Nat.mul_le_mul_left _ (by omega)
-      have hq : 2 ^ (63 - 7 * k) = 128 * 2 ^ (63 - 7 * (k + 1)) := by
-        have : 63 - 7 * k = (63 - 7 * (k + 1)) + 7 := by omega
-        rw [this, Nat.pow_add]; omega
-      have hqi : (2 : Int) ^ (63 - 7 * k) = 128 * (2 : Int) ^ (63 - 7 * (k + 1)) := by
-        have := congrArg (fun n : Nat => (n : Int)) hq
-        simpa using this
-      rw [ih (k + 1) _ (x / 64 / 2) rest (by omega) (by omega) (by rw [hpow]; omega)
-        (by rw [hqi] at hlo; generalize (2 : Int) ^ (63 - 7 * (k + 1)) = Q at *; omega)
-        (by rw [hqi] at hhi; generalize (2 : Int) ^ (63 - 7 * (k + 1)) = Q at *; omega)]
-      -- value bookkeeping
-      have hx : x = 128 * (x / 64 / 2) + ((x % 128).toNat : Int) := by omega
-      have hpi : (2 : Int) ^ (7 * (k + 1)) = 128 * (2 : Int) ^ (7 * k) := by
-        have := congrArg (fun n : Nat => (n : Int)) hpow
-        simpa using this
-      have e1 : (((result + 2 ^ (7 * k) * (x % 128).toNat : Nat)) : Int) =
-          (result : Int) + (2 : Int) ^ (7 * k) * ((x % 128).toNat : Int) := by
-        rw [Int.natCast_add, Int.natCast_mul, Int.natCast_pow]; rfl
-      have e2 : (2 : Int) ^ (7 * k) * x =
-          128 * ((2 : Int) ^ (7 * k) * (x / 64 / 2)) + (2 : Int) ^ (7 * k) * ((x % 128).toNat : Int) := by
-        conv => lhs; rw [hx]
-        rw [Int.mul_add, ← Int.mul_assoc, Int.mul_comm _ 128, Int.mul_assoc]
-      rw [e1, hpi, e2, Int.mul_assoc]
-      have e3 : ∀ a b c : Int, a + b + 128 * c = a + (128 * c + b) := by intros; omega
-      rw [e3]
 
-/-- **`Leb128::signed` then `leb128::read::signed` is the identity** on every `i64` -/
-theorem signed_roundtrip (v : Int) (h1 : -(2 ^ 63 : Int) ≤ v) (h2 : v < 2 ^ 63) (rest : Bytes) :
+/-- **Signed LEB128: write then read is the identity** for every `i64`, whatever follows. -/
+theorem signed_roundtrip (v : Int) (hlo : -(2 ^ 63 : Int) ≤ v) (hhi : v < 2 ^ 63) (rest : Bytes) :
     signed (encodeS v ++ rest) = .ok (v, rest) := by
-  have hpost : signed (encodeS v ++ rest) = signedPost (signedLoop (encodeS v ++ rest) 0 0) := by
-    unfold signed signedPost
-    cases signedLoop (encodeS v ++ rest) 0 0 with
-    | ok w => obtain ⟨a, b, c, d⟩ := w; rfl
-    | err e => rfl
-    | panic w => rfl
-    | diverge => rfl
-  rw [hpost]
-  have := signedLoop_encodeS 10 0 0 v rest (by omega) (by omega) (by simp) (by simpa using h1) (by simpa using h2)
-  simp only [Nat.mul_zero, Int.pow_zero, Int.one_mul, Int.natCast_zero, Int.zero_add] at this
-  exact this
+  obtain ⟨R', sh', b, h1, h2⟩ := signedLoop_encodeS rest 10 0 0 v
+    ⟨by omega, by simp, by omega, by simpa using hlo, by simpa using hhi⟩
+  simp only [Nat.mul_zero] at h1
+  unfold encodeS
+  rw [signed_eq_finish _ _ _ _ _ h1, h2]
+  simp
+
 end Gimli.Leb
